@@ -115,6 +115,21 @@ def _is_filtered(f: Func, name: str, msets: Set[str]) -> bool:
     return False
 
 
+def _alpha(k: ast.AST) -> str:
+    """A sort key, with the parameters of a lambda renamed positionally (x, y, ..)."""
+    if isinstance(k, ast.Lambda) and not (k.args.vararg or k.args.kwarg or k.args.kwonlyargs or k.args.defaults):
+        names = [a.arg for a in k.args.posonlyargs + k.args.args]
+        canon = dict(zip(names, ["x", "y", "z", "w"]))
+        if len(canon) == len(names):
+            k = ast.parse(ast.unparse(k), mode="eval").body
+            for n in ast.walk(k):
+                if isinstance(n, ast.Name) and n.id in canon:
+                    n.id = canon[n.id]
+                elif isinstance(n, ast.arg) and n.arg in canon:
+                    n.arg = canon[n.arg]
+    return norm(k)
+
+
 def _shape(e: Optional[ast.AST], f: Func, depth: int = 0) -> str:
     if e is None:
         return "none"
@@ -129,7 +144,7 @@ def _shape(e: Optional[ast.AST], f: Func, depth: int = 0) -> str:
     if isinstance(e, ast.Call) and isinstance(e.func, ast.Name) and e.func.id == "sorted":
         key = [k.value for k in e.keywords if k.arg == "key"]
         rev = any(k.arg == "reverse" for k in e.keywords)
-        return "sorted" + (f"[key={norm(key[0])}]" if key else "") + ("[reverse]" if rev else "")
+        return "sorted" + (f"[key={_alpha(key[0])}]" if key else "") + ("[reverse]" if rev else "")
     if isinstance(e, ast.DictComp):
         return "dict{" + _shape(e.value, f, depth + 1) + "}"
     if isinstance(e, ast.ListComp):
@@ -219,6 +234,11 @@ def getter_order_agreement(ctx):
         zvals = assignments_to(f, zname.id) if isinstance(zname, ast.Name) else [zname]
         comp_ok = False
         for zv in zvals:
+            zz = zv
+            if isinstance(zz, ast.Call) and isinstance(zz.func, ast.Name) and zz.func.id in ("list", "tuple") and len(zz.args) == 1:
+                zz = zz.args[0]
+            if isinstance(zz, ast.Call) and call_name(zz) == "zip" and [norm(a) for a in zz.args] == [f"self.{S}", f"self.{P}"]:
+                comp_ok = True  # zip(S, P) itself yields (timestamp, position)
             if isinstance(zv, ast.ListComp) and isinstance(zv.generators[0].iter, ast.Call) \
                     and call_name(zv.generators[0].iter) == "zip":
                 zargs = [norm(a) for a in zv.generators[0].iter.args]
